@@ -76,6 +76,8 @@ impl Runner for SubprocessRunner {
         if is_detached {
             // Why is a temporary file created here? Because the subprocess crate closes the
             // STDIN pipe when it goes out of scope, which will interrupt the detached child.
+            #[cfg(feature = "verif_sim")]
+            crate::verif_sim::fs_fault("exec:detached-stdin").context("Create temporary STDIN file")?;
             let mut tmp =
                 tempfile_in(&context.temp_directory).context("Create temporary STDIN file")?;
             tmp.write(input.as_bytes()).context("write to STDIN file")?;
